@@ -575,6 +575,16 @@ pub fn actions_of(m: &Market, nvals: u8) -> Vec<Act> {
             }
         }
     }
+    // one update that names the same pair twice, next to each other and apart: the later entry is the latest quote
+    if q <= 2 {
+        for i in 0..q {
+            out.push(Act::Update { items: vec![(i, 0), (i, 1)], form: 0 });
+            out.push(Act::Update { items: vec![(i, 1), (i, 0)], form: 1 });
+            if q == 2 {
+                out.push(Act::Update { items: vec![(i, 1), (1 - i, 1), (i, 0)], form: 0 });
+            }
+        }
+    }
     for k in 0..6u8 {
         if (k == 3 || k == 5) && q == 1 {
             continue; // a single-quote market stays consistent under a new settlement date
